@@ -656,6 +656,27 @@ def _own_failures(case):
                 fails.append(Fail(f'{tn}/{label}/second-parse-of-the-same-cell/differs', tn))
             elif lc.bits.to01() != cell.bits or R.rcell_of(lc).repr_hash() != cell.repr_hash():
                 fails.append(Fail(f'{tn}/{label}/parsing-changed-the-cell', tn))
+        if not fails:
+            # the same value behind a PREFIX the caller has already consumed (3 bits and one reference)
+            try:
+                b2 = R.Bld()
+                b2.put('101')
+                b2.ref(tail_cells(1)[0])
+                R.encode(t, v, b2)
+                pc = lib_from_rcell(b2.cell())
+            except (R.ModelError, IndexError):
+                pc = None
+            if pc is not None:
+                ps = pc.begin_parse()
+                ps.load_bits(3)
+                ps.load_ref()
+                okp, objp = call(_lib(name), ps)
+                if not okp:
+                    fails.append(Fail(f'{tn}/{label}/behind-a-consumed-prefix/raises/{exc_sig(objp)}', repr(objp)))
+                elif field_failures(tn, R.strip_either(v), conv(t, R.strip_either(v), objp, R.Ctx())):
+                    fails.append(Fail(f'{tn}/{label}/behind-a-consumed-prefix/differs', tn))
+                elif ps.remaining_bits or ps.remaining_refs:
+                    fails.append(Fail(f'{tn}/{label}/behind-a-consumed-prefix/leftover', f'{ps.remaining_bits} bits / {ps.remaining_refs} refs'))
         return fails
     if fails and any(not f.signature.endswith('/unsigned-read-signed') for f in fails):
         # name the root cause: a parser that lost the framing of the value raises, mis-reads later fields or leaves a wrong
